@@ -1,16 +1,24 @@
-from .base import *  # noqa: F401,F403
 from . import base
+from .. import sysgen, exgen
 
 PROP = "C09"
 LEVEL = "exploration"
-COMPONENTS = base.COMPONENTS_EX
-RULE_TEXT = base.RULE_EX
+COMPONENTS = {"real": base.COMPONENTS_SYS["real"], "stub": base.COMPONENTS_EX["stub"]}
+RULE_TEXT = base.RULE_EX + " || " + base.RULE_SYS
 claims = base.prefix_claims(*"C09.,EX.results,EX.crash,EX.lists.".split(","))
-make = base.ex_make("C09")
-execute = base.ex_execute
-prepare_replay = base.ex_prepare_replay
-sample = base.ex_sample
+execute = base.dispatch_execute
+prepare_replay = base.dispatch_prepare
+sample = base.dispatch_sample
+
+
+def make(family, rng, tier):
+    if family == "ex":
+        return exgen.gen(rng, PROP, tier)
+    scn = sysgen.gen(rng, None, PROP, tier)
+    scn["oracles"] = []
+    return scn
 
 
 def plan(tier):
-    return [("ex", 3000 if tier == "quick" else 50000)]
+    q = tier == "quick"
+    return [("ex", 3000 if q else 50000), ("sys", 2500 if q else 40000)]
